@@ -116,6 +116,12 @@ Theorem C02_attr_sync : forall (h : list assign) (s : exc),
   exc_sync mu0 s -> exc_sync mu0 (exc_run mu0 mu0 s h).
 Proof. exact (exc_run_sync Fth mu0 mu0_nz). Qed.
 
+(* ... and every assignment re-establishes the relation whatever the state before it (observations - reads through the
+   getters, getJ/getM, copy - are modelled as leaving the pair unchanged; the correspondence reads through the public
+   getters after every operation, so a getter with hidden state diverges from the model) *)
+Theorem C02_attr_assign : forall (s : exc) (a : assign), a <> Observe -> exc_sync mu0 (exc_step mu0 mu0 s a).
+Proof. exact (fun s a => exc_assign_sync Fth mu0 s a mu0_nz). Qed.
+
 (* getBH_level1 returns orientation.apply(wrapper output): for EVERY 3x3 matrix m the property survives the pose, and
    J reports the polarization expressed in the observer frame (m applied to pol); the observer transformation only
    selects which local row the wrapper sees *)
@@ -147,6 +153,7 @@ Print Assumptions C02_polyline.
 Print Assumptions C02_polyline_batch_is_rowwise.
 Print Assumptions C02_dipole.
 Print Assumptions C02_attr_sync.
+Print Assumptions C02_attr_assign.
 Print Assumptions C02_level1_magnet.
 Print Assumptions C02_level1_current.
 
